@@ -621,16 +621,50 @@ func checkPublishLoop(c *km.Ctx, pub *ssa.Function) {
 			c.R.AnchorLost("R-C09-6", "crypto.Signer fields of RuntimeState (Signer, Ed25519Signer)")
 		}
 		recv := km.Unwrap(fpCall.Common().Args[0]).(*ssa.Call).Common().Value
-		elems, known := localSliceElems(recv)
-		have := map[string]bool{}
-		for _, e := range elems {
-			if x, f, ok := km.FieldOfLoad(km.Unwrap(e)); ok && km.NamedTypeOf(x.Type()) == KMD+".RuntimeState" {
-				have[f] = true
+		// the element sets the list can have: one when it is built in place, one per return when a helper of the
+		// runtime state builds it
+		var sets [][]ssa.Value
+		known := true
+		if elems, k := localSliceElems(recv); k {
+			sets = append(sets, elems)
+		} else {
+			known = false
+			if u, isU := km.Unwrap(recv).(*ssa.UnOp); isU {
+				if ia, isIA := u.X.(*ssa.IndexAddr); isIA {
+					if hc, isC := km.Unwrap(ia.X).(*ssa.Call); isC {
+						if g := km.StaticCallee(hc.Common()); g != nil && len(g.Blocks) > 0 && c.InModule(g) {
+							known = true
+							km.Instrs(g, func(in ssa.Instruction) {
+								if ret, isRet := in.(*ssa.Return); isRet && len(ret.Results) > 0 {
+									elems, k := sliceAppendedElems(ret.Results[0])
+									if !k {
+										known = false
+									}
+									sets = append(sets, elems)
+								}
+							})
+						}
+					}
+				}
+			}
+		}
+		missingSet := map[string]bool{}
+		for _, elems := range sets {
+			have := map[string]bool{}
+			for _, e := range elems {
+				if x, f, ok := km.FieldOfLoad(km.Unwrap(e)); ok && km.NamedTypeOf(x.Type()) == KMD+".RuntimeState" {
+					have[f] = true
+				}
+			}
+			for _, f := range want {
+				if !have[f] {
+					missingSet[f] = true
+				}
 			}
 		}
 		var missing []string
 		for _, f := range want {
-			if !have[f] {
+			if missingSet[f] || len(sets) == 0 {
 				missing = append(missing, f)
 			}
 		}
